@@ -55,7 +55,7 @@ CLAIMED = {
         note=E1 + " Outside: longer sequences, parser-internal ParserDerivationTree.", ref="DESIGN.md section 3 C10"),
     "C11": dict(
         technique="bounded symbolic execution of an evaluate/edit/evaluate history on long-lived constraint+evaluator objects vs separate objects with empty caches",
-        text="For 8 (thorough 29) constraint programs incl. nested rebinding quantifiers and every tree/edit in the bound: after evaluating tree A, the fitness, verdict, solved/total and failing trees reported for tree B (A with one leaf replaced - as a new tree or by editing the evaluated object in place) equal those of fresh objects.",
+        text="For 8 (thorough 29) constraint programs incl. nested rebinding quantifiers and every tree/edit in the bound: after evaluating tree A, the fitness, verdict, solved/total and failing trees reported for tree B (A with one leaf replaced - as a new tree or by editing the evaluated object in place) equal those of fresh objects. Look-alike trees: on an ambiguous grammar, two derivations of the same string evaluated one after the other by one Evaluator each get the verdict fresh objects give. Repeated evaluation of one tree by successive Evaluators sharing the constraint objects reports the same failing parts as fresh objects.",
         note=E1 + " 'Fresh' objects are separate constraint objects with emptied caches. Outside: longer histories, soft constraints.", ref="DESIGN.md section 3 C11"),
     "C12": dict(
         technique="bounded symbolic execution of the real Parser (cache included) under a symbolic history of parse-type requests vs a fresh Parser",
